@@ -225,6 +225,20 @@ func Main() {
 	os.Exit(parent(h, mode))
 }
 
+// ruleAddition: what was added to the check after the harness's rule text was written (kept in
+// one file, check_additions.json, which also feeds MANIFEST.json).
+func ruleAddition(prop string) string {
+	b, err := os.ReadFile(filepath.Join(verifDir(), "check_additions.json"))
+	if err != nil {
+		return ""
+	}
+	m := map[string]string{}
+	if json.Unmarshal(b, &m) != nil || m[prop] == "" {
+		return ""
+	}
+	return " Additions:" + m[prop]
+}
+
 func verifDir() string {
 	if d := os.Getenv("VERIF_DIR"); d != "" {
 		return d
@@ -585,7 +599,7 @@ func parent(h *Harness, tier string) int {
 		"traces_validated_against_impl": counters["evaluations"],
 		"evaluations":                   counters["evaluations"],
 		"distinct_nontrivial":           counters["distinct_nontrivial"],
-		"rule":                          h.Rule,
+		"rule":                          h.Rule + ruleAddition(h.Prop),
 		"samples":                       samples,
 		"outcome_classes":               len(outcomes),
 		"outcome_class_names":           oc,
